@@ -25,13 +25,11 @@ package drpchttp
 //@ func buildContext
 //@   props C14 C13
 //@   requires ctx != nil
-//@   modifies *
 //@   loop 1 invariant [e] entries == entries0 && ctx != nil && -1 <= rangeindex && rangeindex < len(entries)
 
 //@ func Context
 //@   props C13
 //@   requires req != nil
-//@   modifies *
 
 //@ func readExactly
 //@   props C13 C14
